@@ -154,12 +154,12 @@ let () =
                  let st' = List.fold_left (fun s e -> fst (acc_step s e)) b (List.rev !since) in
                  st := st';
                  Printf.printf "%s %d T %s sm=%s\n" id k (show_table st'.st_tab) (string_of_n st'.st_sm))
-            | ["H"] ->
+            | ["H"] | ["Q"; _] ->
               (match acc_save_table !st.st_tab with
-               | None -> Printf.printf "%s %d H panic\n" id k
+               | None -> Printf.printf "%s %d %s panic\n" id k (List.hd w)
                | Some (_, t') ->
                  st := { st_tab = t'; st_sm = !st.st_sm };
-                 Printf.printf "%s %d H ok\n" id k)
+                 Printf.printf "%s %d %s ok\n" id k (List.hd w))
             | ["D"] ->
               Printf.printf "%s %d T %s sm=%s\n" id k (show_table !st.st_tab) (string_of_n !st.st_sm)
             | ["CAP"] -> Printf.printf "%s %d CAP %s\n" id k (string_of_n default_cap)
